@@ -300,6 +300,18 @@ theorem faulty_swap_dependents_unavailable (A : Arith) (S : Sys) (l : Level) (up
     · rfl
     · simp [hp, bnd, Res.bind]
 
+/-- `kill_by_swap_usage`'s biased excess never throws when the two statistics it reads are `ok` or `unavailable`, in any
+combination - in particular when the protection is known and the swap usage is not (a candidate restored after a prekill
+hook whose memory.swap.current is gone) ... -/
+theorem swap_excess_safe (ratio : Int → Int) (prot usage : Res Int) (hp : prot.safe = true) (hu : usage.safe = true) :
+    (swapExcess ratio prot usage).safe = true := by
+  cases prot <;> cases usage <;> simp_all [swapExcess, valueOr, bnd, Res.bind, Res.safe]
+
+/-- ... which is exactly where the code before the `fix:` commit threw `std::bad_optional_access` (proved counterexample;
+reachable: `memory_protection` is `ok 0` for a cgroup all of whose files are gone, by the `sum = 0` branch). -/
+theorem unfixed_swap_excess_throws (ratio : Int → Int) (p : Int) :
+    swapExcessUnfixed ratio (.ok p) .unavailable = .throws := rfl
+
 /-! non-vacuity: a concrete two-level hierarchy with a mix of faulty and well-formed files satisfies the hypotheses, and the
 accessors split into available and unavailable ones as the theorems say -/
 namespace Ex
